@@ -1,5 +1,6 @@
 SPECIFICATION Spec
 CONSTANTS
+  Starts <- StartsBase
   Dev <- DevBak
   MaxRuns = 3
   FlowDef <- FlowsLib
